@@ -62,6 +62,8 @@ class Problem(object):
     ref_opts = {}
     tol = 1e-6
     bck_for_closed = None       # bck_options needed by the closed-form callable (functionals whose backward re-invokes the method)
+    bck_default = None          # backward options used for BOTH the custom and the built-in run (tight linear-solver tolerances, so that the
+    #                             comparison is not limited by the default 1e-6 of the Krylov backward solve)
 
     def __init__(self, seed, n):
         self.seed, self.n = seed, n
@@ -101,6 +103,7 @@ def _spd_from(P, shift):
 
 
 class SolveP(Problem):
+    bck_default = {"rtol": 1e-11, "atol": 1e-13}
     name = "solve"
     builtins = ("exactsolve", "custom_exactsolve", "cg", "bicgstab", "gmres", "broyden1")
     reference = "exactsolve"
@@ -118,7 +121,7 @@ class SolveP(Problem):
         import xitorch
         if "Q" not in lv:
             return None
-        return xitorch.LinearOperator.m(_spd_from(lv["Q"], 2.0), is_hermitian=True)
+        return xitorch.LinearOperator.m(_spd_from(0.4 * lv["Q"], 2.5), is_hermitian=True)
 
     def ops(self, lv):
         import xitorch
@@ -167,6 +170,7 @@ class SolveP(Problem):
 
 
 class SymeigP(Problem):
+    bck_default = {"rtol": 1e-11, "atol": 1e-13}
     name = "symeig"
     builtins = ("exacteig", "custom_exacteig", "davidson")
     reference = "exacteig"
@@ -264,6 +268,7 @@ class SvdP(SymeigP):
 
 
 class AffineOpt(Problem):
+    bck_default = {"rtol": 1e-11, "atol": 1e-13}
     """rootfinder / equilibrium / minimize on affine problems with closed-form solutions"""
 
     kind = "rootfinder"
@@ -552,11 +557,11 @@ def run_custom(desc, obs):
     lv_c = {k: v.detach().clone().requires_grad_(mask[k]) for k, v in lv_c.items()}
     lv_r = {k: v.detach().clone().requires_grad_(mask[k]) for k, v in lv_c.items()}
     obs.note(requires_grad=[k for k in mask if mask[k]])
-    bck = P.bck_for_closed if P.bck_for_closed is not None else None
+    bck = P.bck_for_closed if P.bck_for_closed is not None else P.bck_default
     # ---- built-in reference
     try:
         with WarnLog():
-            outs_r = P.call(lv_r, P.reference, dict(P.ref_opts), None)
+            outs_r = P.call(lv_r, P.reference, dict(P.ref_opts), P.bck_default)
             tg = torch.Generator().manual_seed(desc["seed"] + 1)
             g1_r, g2_r = _contract(P.gauge(outs_r), list(lv_r.values()), tg)
     except Exception as e:
